@@ -306,8 +306,24 @@ def parallel_eval(plugin, cases, kind="both", procs=None):
 
 
 # ---------------------------------------------------------------- findings
+def _prop_anchor_files(pid):
+    try:
+        for l in open(os.path.join(ROOT, "properties.jsonl")):
+            p = json.loads(l)
+            if p.get("id") == pid:
+                return list(p.get("anchors", {}).get("files", []))
+    except OSError:
+        pass
+    return []
+
+
+def anchor_files(plugin):
+    """Anchored source files of a plugin: its ANCHORS, else the anchors of the property."""
+    return list(getattr(plugin, "ANCHORS", None) or _prop_anchor_files(plugin.ID))
+
+
 def anchors_hash(plugin):
-    files = list(getattr(plugin, "ANCHORS", []))
+    files = anchor_files(plugin)
     if not files:
         return None
     h = hashlib.sha256()
@@ -320,15 +336,77 @@ def anchors_hash(plugin):
     return h.hexdigest()[:16]
 
 
+def _load_pins():
+    try:
+        return json.load(open(os.path.join(ROOT, "harness", "pins.json")))
+    except (OSError, ValueError):
+        return {}
+
+
 def anchors_differ(plugin):
     cur = anchors_hash(plugin)
     if cur is None:
         return False
+    return _load_pins().get(plugin.ID) not in (None, cur)
+
+
+# -- function-level tie: a plugin may declare MODELLED = {"src/prompt_toolkit/x.py": ["Class.method", "func"]}
+#    = the functions its Lean model follows line by line.  Their normalised-AST hashes are pinned
+#    (harness/pin.py) and compared on every run; a changed / vanished function escalates the
+#    exploration (never a verdict by itself) and is named in the evidence.
+def function_index(path):
+    """qualified name -> normalised AST dump (docstrings and positions removed) of every def in a file."""
+    import ast
     try:
-        pins = json.load(open(os.path.join(ROOT, "harness", "pins.json")))
-    except OSError:
-        return False
-    return pins.get(plugin.ID) not in (None, cur)
+        tree = ast.parse(open(path, encoding="utf-8").read())
+    except (OSError, SyntaxError):
+        return {}
+    out = {}
+
+    def strip_doc(node):
+        body = getattr(node, "body", None)
+        if (isinstance(body, list) and body and isinstance(body[0], ast.Expr)
+                and isinstance(getattr(body[0], "value", None), ast.Constant)
+                and isinstance(body[0].value.value, str)):
+            node.body = body[1:] or [ast.Pass()]
+
+    def walk(node, prefix):
+        for ch in ast.iter_child_nodes(node):
+            if isinstance(ch, (ast.FunctionDef, ast.AsyncFunctionDef)):
+                q = prefix + ch.name
+                for sub in ast.walk(ch):
+                    strip_doc(sub)
+                d = ast.dump(ch, annotate_fields=False, include_attributes=False)
+                if q in out:           # property getter + setter etc.: concatenate
+                    out[q] += "|" + d
+                else:
+                    out[q] = d
+                walk(ch, q + ".")
+            elif isinstance(ch, ast.ClassDef):
+                walk(ch, prefix + ch.name + ".")
+            elif isinstance(ch, (ast.If, ast.Try, ast.With)):
+                walk(ch, prefix)
+    walk(tree, "")
+    return out
+
+
+def modelled_hashes(plugin):
+    res = {}
+    for f, names in sorted((getattr(plugin, "MODELLED", None) or {}).items()):
+        idx = function_index(os.path.join(REPO, f))
+        for n in names:
+            d = idx.get(n)
+            res[f"{f}::{n}"] = hashlib.sha256(d.encode()).hexdigest()[:16] if d is not None else "<missing>"
+    return res
+
+
+def modelled_changed(plugin):
+    """Names of modelled functions whose normalised AST differs from the pinned one (or vanished)."""
+    cur = modelled_hashes(plugin)
+    pinned = _load_pins().get("functions", {}).get(plugin.ID)
+    if not cur or pinned is None:
+        return []
+    return sorted(k for k, h in cur.items() if pinned.get(k) not in (None, h))
 
 
 def load_known():
@@ -457,7 +535,8 @@ def main(plugin) -> int:
     # source-change escalation: when an anchored file differs from the version the model was
     # last validated against (harness/pins.json), explore with extra seeds (never a verdict by itself)
     anchors_changed = anchors_differ(plugin)
-    if anchors_changed and args.tier == "quick" and not getattr(plugin, "NO_ESCALATION", False):
+    fn_changed = modelled_changed(plugin)
+    if (anchors_changed or fn_changed) and args.tier == "quick" and not getattr(plugin, "NO_ESCALATION", False):
         for extra_seed in (1, 2, 3):
             cases += list(plugin.cases(args.tier, random.Random(seed * 1000 + extra_seed)))
     res = parallel_eval(plugin, cases)
@@ -602,6 +681,9 @@ def main(plugin) -> int:
             "distribution": dist,
             "partial_scope": list(getattr(plugin, "PARTIAL_SCOPE", [])),
             "anchored_sources_changed_since_pin": bool(anchors_changed),
+            "anchored_files": anchor_files(plugin),
+            "modelled_functions": sorted(modelled_hashes(plugin)),
+            "modelled_functions_changed_since_pin": fn_changed,
         },
         "assumptions": list(getattr(plugin, "ASSUMPTIONS", [])),
         "wall_s": round(time.time() - t0, 2),
